@@ -131,7 +131,7 @@ def scene_case(spec):
 
 def run(res):
     quick = res.tier == "quick"
-    specs = [dict(seed=res.seed, idx=i, max_patches=(18 if quick else 34)) for i in range(10 if quick else 120)]
+    specs = [dict(seed=res.seed, idx=i, max_patches=(18 if quick else 34)) for i in range(10 if quick else 300)]
     for r in fw.run_parallel(scene_case, specs):
         res.absorb(r)
     res.rule = ("shoebox scenes, 1-3 bands with m in [0.005,0.3] Np/m, order 1-2; the attenuated run is compared "
